@@ -202,3 +202,22 @@ pub async fn open_coll_with(db: &AndaDB, idx: Idx, had: Idx) -> Result<Arc<Colle
     )
     .await
 }
+
+/// A second collection whose name has the main collection's name as a proper prefix
+/// (`docs` / `docs2`): one document, the `name` and `age` indexes, flushed.
+pub const SIBLING_NAME: &str = "docs2";
+pub async fn open_sibling(db: &AndaDB) -> Result<Arc<Collection>, DBError> {
+    db.open_or_create_collection(
+        VDoc::schema()?,
+        CollectionConfig {
+            name: SIBLING_NAME.to_string(),
+            description: "sibling whose name extends the main collection's".to_string(),
+        },
+        async move |c| {
+            c.create_btree_index_nx(&["name"]).await?;
+            c.create_btree_index_nx(&["age"]).await?;
+            Ok(())
+        },
+    )
+    .await
+}
